@@ -1,7 +1,7 @@
 PROP = dict(
     ready=True,
     coq=["theories/Properties/C13.v"],
-    suites=[dict(bin="obs-logcodec")],
+    suites=[dict(bin="obs-logcodec"), dict(bin="obs-engine", corpus="engine")],  # the engine suite re-verifies every entry the real Commander writes
     trusted=[
         "hand-written model LogCodec/Model.v of internal/log.go (payloads, MarshalJSON/UnmarshalJSON, HydrateLog, ComputeHash, "
         "ChainLog), transaction.go, posting.go, and Logs.ToCore of ledgerstore/logs.go; tied by correspondence on every run: the "
